@@ -26,9 +26,21 @@ Notation irdl_op_arg_definition := (Model.irdl_op_arg_definition ver).
 Notation verify_variadic_size := (Model.verify_variadic_size ver).
 Notation well_defined := (Proofs.well_defined ver).
 Notation same_nonvacuous := (ProofsAcc.same_nonvacuous ver).
+(* the value universe A holds attributes and ints: see Model.v *)
+Variable of_int : Z -> A.
+Variable as_int : A -> option Z.
 Notation constr := (constr A).
 Notation cctx := (cctx A).
 Notation verify_attr := (verify_attr A A_eqb).
+Notation verify_range := (Model.verify_range A A_eqb of_int).
+Notation verify_arg_constr := (Model.verify_arg_constr A A_eqb of_int).
+Notation verify_args_loop := (Model.verify_args_loop A A_eqb of_int).
+Notation verify_entry_args := (Model.verify_entry_args A A_eqb of_int).
+Notation verify_regions_loop := (Model.verify_regions_loop A A_eqb of_int).
+Notation verify_nconstr := (Model.verify_nconstr A A_eqb of_int as_int).
+Notation verify_named := (Model.verify_named A A_eqb of_int as_int).
+Notation irdl_op_verify_arg_list := (Model.irdl_op_verify_arg_list A A_eqb ver of_int).
+Notation opdef_verify := (Model.opdef_verify A A_eqb ver of_int as_int).
 
 (* ================================================================ Spec of the constraint clause *)
 (* an assignment of the constraint variables *)
@@ -40,19 +52,47 @@ Definition all_sat (sg : assignment) (ps : list (constr * A)) : Prop :=
   Forall (fun p => sat sg (fst p) (snd p)) ps.
 
 (* (constraint, value) pairs of an operation, given its segments *)
+(* a range with an optional length constraint: the LENGTH (as an int value) must satisfy the
+   length constraint -- this is where integer variables shared between segments are compared *)
+Definition range_pairs (c : constr) (lc : option constr) (seg : list A) : list (constr * A) :=
+  match lc with Some l => [(l, of_int (len seg))] | None => [] end ++ map (pair c) seg.
+Definition piece_pairs (d : argdef A) (seg : list A) : list (constr * A) :=
+  match akind A d with
+  | Single => map (pair (aconstr A d)) seg
+  | _ => range_pairs (aconstr A d) (alen A d) seg
+  end.
 Definition arg_pairs (defs : list (argdef A)) (segs : list (list A)) : list (constr * A) :=
-  flat_map (fun p => map (pair (aconstr A (fst p))) (snd p)) (combine defs segs).
-Definition entry_of (r : region A) : list A := match r with [] => [] | b :: _ => b end.
+  flat_map (fun p => piece_pairs (fst p) (snd p)) (combine defs segs).
+(* a region contributes the argument types of its first block (nothing if it has no block) *)
+Definition entry_pairs (c : constr) (lc : option constr) (r : region A) : list (constr * A) :=
+  match r with [] => [] | b :: _ => range_pairs c lc b end.
 Definition region_pairs (defs : list (regiondef A)) (segs : list (list (region A))) : list (constr * A) :=
-  flat_map (fun p => flat_map (fun r => map (pair (rentry A (fst p))) (entry_of r)) (snd p))
+  flat_map (fun p => flat_map (entry_pairs (rentry A (fst p)) (rlen A (fst p))) (snd p))
            (combine defs segs).
-Definition named_pairs (defs : list (bool * constr)) (vals : list (option A)) : list (constr * A) :=
-  flat_map (fun p => match snd p with Some a => [(snd (fst p), a)] | None => [] end) (combine defs vals).
+(* a property/attribute: the value itself, or the integer payload of an IntAttr *)
+Definition nconstr_of (nc : nconstr A) : constr := match nc with NAttr _ c => c | NIntAttr _ ic => ic end.
+Definition nvalue (nc : nconstr A) (a : A) : option A :=
+  match nc with
+  | NAttr _ _ => Some a
+  | NIntAttr _ _ => match as_int a with Some k => Some (of_int k) | None => None end
+  end.
+Definition named_pairs (defs : list (bool * nconstr A)) (vals : list (option A)) : list (constr * A) :=
+  flat_map (fun p => match snd p with
+                     | Some a => match nvalue (snd (fst p)) a with
+                                 | Some x => [(nconstr_of (snd (fst p)), x)]
+                                 | None => []
+                                 end
+                     | None => []
+                     end) (combine defs vals).
 (* structural side conditions *)
 Definition single_ok (defs : list (regiondef A)) (segs : list (list (region A))) : Prop :=
   Forall (fun p => rsingle A (fst p) = true -> Forall (fun r => len r = 1) (snd p)) (combine defs segs).
-Definition present_ok (defs : list (bool * constr)) (vals : list (option A)) : Prop :=
-  Forall (fun p => snd p = None -> fst (fst p) = true) (combine defs vals).
+(* absent only if optional; an IntAttr-constrained value is an IntAttr *)
+Definition present_ok (defs : list (bool * nconstr A)) (vals : list (option A)) : Prop :=
+  Forall (fun p => match snd p with
+                   | None => fst (fst p) = true
+                   | Some a => nvalue (snd (fst p)) a <> None
+                   end) (combine defs vals).
 
 (* ================================================================ threading = one assignment *)
 Fixpoint verify_pairs (ps : list (constr * A)) (ctx : cctx) : res cctx :=
@@ -73,6 +113,14 @@ Lemma range_of_pairs : forall c l ctx,
 Proof.
   induction l as [|a r IH]; intros ctx; [reflexivity|]. cbn [verify_range_of map verify_pairs].
   destruct (verify_attr c a ctx); cbn [bind]; auto.
+Qed.
+
+Lemma range_pairs_ok : forall c lc l ctx,
+  verify_range c lc l ctx = verify_pairs (range_pairs c lc l) ctx.
+Proof.
+  intros c [l0|] l ctx; unfold Model.verify_range, range_pairs; cbn [app verify_pairs].
+  - destruct (verify_attr l0 (of_int (len l)) ctx); cbn [bind]; auto using range_of_pairs.
+  - apply range_of_pairs.
 Qed.
 
 Definition extends (ctx ctx' : cctx) : Prop :=
@@ -150,32 +198,33 @@ Qed.
 Lemma args_loop_pairs : forall accs defs attr args segs ctx,
   run accs attr args = expected (map (akind A) defs) segs ->
   Forall2 (fun d seg => size_ok (akind A d) (len seg)) defs segs ->
-  verify_args_loop A A_eqb accs defs attr args ctx = verify_pairs (arg_pairs defs segs) ctx.
+  verify_args_loop accs defs attr args ctx = verify_pairs (arg_pairs defs segs) ctx.
 Proof.
   intros accs defs attr args segs ctx Hrun H. revert accs ctx Hrun.
   induction H as [|d seg defs segs Hd Hr IH]; intros accs ctx Hrun.
   - destruct accs; reflexivity.
   - destruct accs as [|acc accs]; [discriminate|].
     cbn [map] in Hrun. rewrite run_cons, expected_cons in Hrun. injection Hrun as Hacc Hrun.
-    cbn [verify_args_loop]. rewrite Hacc. cbn [bind]. rewrite accres_list_shape.
+    cbn [Model.verify_args_loop]. rewrite Hacc. cbn [bind]. rewrite accres_list_shape.
     unfold arg_pairs. cbn [combine flat_map fst snd]. rewrite verify_pairs_app.
     fold (arg_pairs defs segs).
-    assert (E : verify_arg_constr A A_eqb d seg ctx = verify_pairs (map (pair (aconstr A d)) seg) ctx).
-    { unfold verify_arg_constr. destruct (akind A d) eqn:Ek; try apply range_of_pairs.
+    assert (E : verify_arg_constr d seg ctx = verify_pairs (piece_pairs d seg) ctx).
+    { unfold Model.verify_arg_constr, piece_pairs.
+      destruct (akind A d) eqn:Ek; try apply range_pairs_ok.
       cbn [size_ok] in Hd. destruct seg as [|x0 [|y0 r0]].
       - exfalso. rewrite len_nil in Hd. lia.
       - cbn. destruct (verify_attr (aconstr A d) x0 ctx); reflexivity.
       - exfalso. rewrite !len_cons in Hd. pose proof (len_nonneg _ r0). lia. }
-    rewrite E. destruct (verify_pairs (map (pair (aconstr A d)) seg) ctx); cbn [bind]; auto.
+    rewrite E. destruct (verify_pairs (piece_pairs d seg) ctx); cbn [bind]; auto.
 Qed.
 
-Lemma entry_args_pairs : forall c rs ctx,
-  verify_entry_args A A_eqb c rs ctx = verify_pairs (flat_map (fun r => map (pair c) (entry_of r)) rs) ctx.
+Lemma entry_args_pairs : forall c lc rs ctx,
+  verify_entry_args c lc rs ctx = verify_pairs (flat_map (entry_pairs c lc) rs) ctx.
 Proof.
-  induction rs as [|r rs IH]; intros ctx; [reflexivity|]. cbn [verify_entry_args flat_map].
-  destruct r as [|b bs]; cbn [entry_of map app]; [apply IH|].
-  rewrite verify_pairs_app, range_of_pairs.
-  destruct (verify_pairs (map (pair c) b) ctx); cbn [bind]; auto.
+  induction rs as [|r rs IH]; intros ctx; [reflexivity|]. cbn [Model.verify_entry_args flat_map].
+  destruct r as [|b bs]; cbn [entry_pairs app]; [apply IH|].
+  rewrite verify_pairs_app, range_pairs_ok.
+  destruct (verify_pairs (range_pairs c lc b) ctx); cbn [bind]; auto.
 Qed.
 
 Lemma forallb_len1 : forall (rs : list (region A)),
@@ -188,7 +237,7 @@ Qed.
 Lemma regions_loop_pairs : forall accs defs attr regions segs ctx ctx',
   run accs attr regions = expected (map (rkind A) defs) segs ->
   length defs = length segs ->
-  (verify_regions_loop A A_eqb accs defs attr regions ctx = Ok ctx' <->
+  (verify_regions_loop accs defs attr regions ctx = Ok ctx' <->
    single_ok defs segs /\ verify_pairs (region_pairs defs segs) ctx = Ok ctx').
 Proof.
   intros accs defs attr regions segs. revert accs segs.
@@ -197,7 +246,7 @@ Proof.
   - destruct segs as [|seg segs]; [discriminate|]. injection Hl as Hl.
     destruct accs as [|acc accs]; [discriminate|].
     cbn [map] in Hrun. rewrite run_cons, expected_cons in Hrun. injection Hrun as Hacc Hrun.
-    cbn [verify_regions_loop]. rewrite Hacc. cbn [bind]. rewrite accres_list_shape.
+    cbn [Model.verify_regions_loop]. rewrite Hacc. cbn [bind]. rewrite accres_list_shape.
     unfold single_ok, region_pairs. cbn [combine flat_map fst snd]. rewrite verify_pairs_app.
     fold (region_pairs defs segs). rewrite Forall_cons_iff. cbn [fst snd]. fold (single_ok defs segs).
     rewrite entry_args_pairs.
@@ -218,23 +267,32 @@ Proof.
 Qed.
 
 Lemma named_pairs_iff : forall defs vals ctx ctx',
-  verify_named A A_eqb defs vals ctx = Ok ctx' <->
+  verify_named defs vals ctx = Ok ctx' <->
   present_ok defs vals /\ verify_pairs (named_pairs defs vals) ctx = Ok ctx'.
 Proof.
   induction defs as [|[opt c] defs IH]; intros vals ctx ctx'.
   - cbn. split; [intros H; split; [constructor|exact H]|tauto].
   - destruct vals as [|v vals].
     + cbn. split; [intros H; split; [constructor|exact H]|tauto].
-    + cbn [verify_named]. unfold present_ok, named_pairs. cbn [combine flat_map fst snd].
+    + cbn [Model.verify_named]. unfold present_ok, named_pairs. cbn [combine flat_map fst snd].
       fold (named_pairs defs vals). rewrite Forall_cons_iff. cbn [fst snd]. fold (present_ok defs vals).
       destruct v as [a|].
-      * cbn [app verify_pairs]. rewrite !bind_ok. split.
-        -- intros (c1 & H1 & H2). apply IH in H2. destruct H2 as [S P].
-           split; [split; [discriminate|auto]|]. eauto.
-        -- intros ((_ & S) & (c1 & H1 & H2)). exists c1. split; auto. apply IH; auto.
+      * assert (Hn : verify_nconstr c a ctx
+                     = match nvalue c a with
+                       | Some x => verify_attr (nconstr_of c) x ctx
+                       | None => Raise VerifyException
+                       end).
+        { unfold Model.verify_nconstr, nvalue, nconstr_of. destruct c; [reflexivity|].
+          destruct (as_int a); reflexivity. }
+        rewrite Hn. destruct (nvalue c a) as [x|] eqn:En.
+        -- cbn [app verify_pairs]. rewrite !bind_ok. split.
+           ++ intros (c1 & H1 & H2). apply IH in H2. destruct H2 as [S P].
+              split; [split; [discriminate|auto]|]. eauto.
+           ++ intros ((_ & S) & (c1 & H1 & H2)). exists c1. split; auto. apply IH; auto.
+        -- cbn [bind]. split; [discriminate|]. intros ((S & _) & _). congruence.
       * cbn [app]. destruct opt.
-        -- rewrite IH. tauto.
-        -- split; [discriminate|]. intros ((S & _) & _). specialize (S eq_refl). discriminate.
+        -- rewrite IH. intuition.
+        -- split; [discriminate|]. intros ((S & _) & _). discriminate S.
 Qed.
 
 (* ================================================================ per-construct: sizes + constraints *)
@@ -288,14 +346,14 @@ Qed.
 Lemma arg_list_iff : forall opt accs defs attr args ctx ctx',
   irdl_op_arg_definition opt (map (akind A) defs) = Ok accs ->
   attr_disciplined opt attr (len args) -> same_nonvacuous opt (map (akind A) defs) ->
-  (irdl_op_verify_arg_list A A_eqb ver opt accs defs attr args ctx = Ok ctx' <->
+  (irdl_op_verify_arg_list opt accs defs attr args ctx = Ok ctx' <->
    exists sizes, seg_for opt (map (akind A) defs) args attr sizes /\
                  verify_pairs (arg_pairs defs (split_sizes sizes args)) ctx = Ok ctx').
 Proof.
-  intros opt accs defs attr args ctx ctx' Hacc Hd Hnv. unfold irdl_op_verify_arg_list.
+  intros opt accs defs attr args ctx ctx' Hacc Hd Hnv. unfold Model.irdl_op_verify_arg_list.
   assert (Hwd : well_defined opt (map (akind A) defs)) by (eexists; eauto).
   assert (Hloop : forall sizes, seg_for opt (map (akind A) defs) args attr sizes ->
-            verify_args_loop A A_eqb accs defs attr args ctx
+            verify_args_loop accs defs attr args ctx
             = verify_pairs (arg_pairs defs (split_sizes sizes args)) ctx).
   { intros sizes Hs. apply args_loop_pairs.
     - destruct Hs as [Hseg Ha]. eapply accessors_spec; eauto; intros E; rewrite (Ha E); eauto.
@@ -313,7 +371,7 @@ Lemma regions_iff : forall opt accs defs attr (regions : list (region A)) ctx ct
   irdl_op_arg_definition opt (map (rkind A) defs) = Ok accs ->
   attr_disciplined opt attr (len regions) -> same_nonvacuous opt (map (rkind A) defs) ->
   ((do _ <- verify_variadic_size opt (map (rkind A) defs) (len regions) attr;
-    verify_regions_loop A A_eqb accs defs attr regions ctx) = Ok ctx' <->
+    verify_regions_loop accs defs attr regions ctx) = Ok ctx' <->
    exists sizes, seg_for opt (map (rkind A) defs) regions attr sizes /\
                  single_ok defs (split_sizes sizes regions) /\
                  verify_pairs (region_pairs defs (split_sizes sizes regions)) ctx = Ok ctx').
@@ -321,7 +379,7 @@ Proof.
   intros opt accs defs attr regions ctx ctx' Hacc Hd Hnv.
   assert (Hwd : well_defined opt (map (rkind A) defs)) by (eexists; eauto).
   assert (Hloop : forall sizes, seg_for opt (map (rkind A) defs) regions attr sizes ->
-            (verify_regions_loop A A_eqb accs defs attr regions ctx = Ok ctx' <->
+            (verify_regions_loop accs defs attr regions ctx = Ok ctx' <->
              single_ok defs (split_sizes sizes regions) /\
              verify_pairs (region_pairs defs (split_sizes sizes regions)) ctx = Ok ctx')).
   { intros sizes Hs. apply regions_loop_pairs.
@@ -339,9 +397,15 @@ Qed.
 Notation opdef := (opdef A).
 Notation opinst := (opinst A).
 
+Definition opt_list {T} (o : option T) : list T := match o with Some x => [x] | None => [] end.
+Definition arg_constrs (d : argdef A) : list constr := aconstr A d :: opt_list (alen A d).
+Definition reg_constrs (d : regiondef A) : list constr := rentry A d :: opt_list (rlen A d).
+Definition named_constr (p : bool * nconstr A) : constr := nconstr_of (snd p).
+(* every attribute / length / integer constraint of the definition *)
 Definition all_constrs (d : opdef) : list constr :=
-  map (aconstr A) (d_operands A d) ++ map (aconstr A) (d_results A d)
-  ++ map (rentry A) (d_regions A d) ++ map snd (d_props A d) ++ map snd (d_attrs A d).
+  flat_map arg_constrs (d_operands A d) ++ flat_map arg_constrs (d_results A d)
+  ++ flat_map reg_constrs (d_regions A d)
+  ++ map named_constr (d_props A d) ++ map named_constr (d_attrs A d).
 
 (* all (constraint, value) pairs of an operation whose lists are split by s1 s2 s3 *)
 Definition op_pairs (d : opdef) (o : opinst) (s1 s2 s3 : list Z) : list (constr * A) :=
@@ -375,24 +439,36 @@ Definition def_nonvacuous (d : opdef) : Prop :=
   same_nonvacuous (d_regopt A d) (map (rkind A) (d_regions A d)).
 Definition def_consistent (d : opdef) : Prop := exists base, consistent base (all_constrs d).
 
-Lemma in_arg_pairs : forall defs segs p, In p (arg_pairs defs segs) -> In (fst p) (map (aconstr A) defs).
+Lemma in_range_pairs : forall c lc seg p, In p (range_pairs c lc seg) -> In (fst p) (c :: opt_list lc).
+Proof.
+  intros c lc seg p H. unfold range_pairs in H. apply in_app_iff in H. destruct H as [H|H].
+  - destruct lc as [l|]; [|destruct H]. destruct H as [<-|[]]. right. left. reflexivity.
+  - apply in_map_iff in H. destruct H as (a & <- & _). left. reflexivity.
+Qed.
+Lemma in_arg_pairs : forall defs segs p,
+  In p (arg_pairs defs segs) -> In (fst p) (flat_map arg_constrs defs).
 Proof.
   intros defs segs p H. unfold arg_pairs in H. apply in_flat_map in H. destruct H as ([d seg] & Hin & Hp).
-  cbn [fst snd] in Hp. apply in_map_iff in Hp. destruct Hp as (a & <- & _). cbn [fst].
-  apply in_map. eapply in_combine_l; eauto.
+  cbn [fst snd] in Hp. apply in_flat_map. exists d. split; [eapply in_combine_l; eauto|].
+  unfold piece_pairs in Hp. unfold arg_constrs.
+  destruct (akind A d); [|eapply in_range_pairs; exact Hp|eapply in_range_pairs; exact Hp].
+  apply in_map_iff in Hp. destruct Hp as (a & <- & _). left. reflexivity.
 Qed.
-Lemma in_region_pairs : forall defs segs p, In p (region_pairs defs segs) -> In (fst p) (map (rentry A) defs).
+Lemma in_region_pairs : forall defs segs p,
+  In p (region_pairs defs segs) -> In (fst p) (flat_map reg_constrs defs).
 Proof.
   intros defs segs p H. unfold region_pairs in H. apply in_flat_map in H. destruct H as ([d seg] & Hin & Hp).
   cbn [fst snd] in Hp. apply in_flat_map in Hp. destruct Hp as (r & _ & Hp).
-  apply in_map_iff in Hp. destruct Hp as (a & <- & _). cbn [fst].
-  apply in_map. eapply in_combine_l; eauto.
+  apply in_flat_map. exists d. split; [eapply in_combine_l; eauto|].
+  unfold entry_pairs in Hp. destruct r; [destruct Hp|]. eapply in_range_pairs; eauto.
 Qed.
-Lemma in_named_pairs : forall defs vals p, In p (named_pairs defs vals) -> In (fst p) (map snd defs).
+Lemma in_named_pairs : forall defs vals p,
+  In p (named_pairs defs vals) -> In (fst p) (map named_constr defs).
 Proof.
   intros defs vals p H. unfold named_pairs in H. apply in_flat_map in H. destruct H as ([[b c] v] & Hin & Hp).
-  cbn [fst snd] in Hp. destruct v; [|destruct Hp]. destruct Hp as [<-|[]]. cbn [fst].
-  apply in_combine_l in Hin. change c with (snd (b, c)). apply in_map. exact Hin.
+  cbn [fst snd] in Hp. destruct v as [a|]; [|destruct Hp]. destruct (nvalue c a); [|destruct Hp].
+  destruct Hp as [<-|[]]. cbn [fst].
+  apply in_combine_l in Hin. change (nconstr_of c) with (named_constr (b, c)). apply in_map. exact Hin.
 Qed.
 
 Lemma op_pairs_consistent : forall base d o s1 s2 s3,
@@ -423,7 +499,7 @@ Qed.
 (* threaded form: one pass over all pairs *)
 Lemma opdef_verify_threaded : forall d x o,
   get_accessors A ver d = Ok x -> op_disciplined d o -> def_nonvacuous d ->
-  (opdef_verify A A_eqb ver d x o = Ok tt <->
+  (opdef_verify d x o = Ok tt <->
    exists s1 s2 s3 s4,
     seg_for (d_opopt A d) (map (akind A) (d_operands A d)) (o_operands A o) (o_opseg A o) s1 /\
     seg_for (d_resopt A d) (map (akind A) (d_results A d)) (o_results A o) (o_resseg A o) s2 /\
@@ -437,7 +513,7 @@ Proof.
   intros d x o Hx (D1 & D2 & D3 & D4) (N1 & N2 & N3).
   destruct (get_accessors_ok _ _ Hx) as (X1 & X2 & X3 & X4).
   assert (W4 : well_defined (d_sucopt A d) (d_succs A d)) by (eexists; eauto).
-  unfold opdef_verify, op_pairs. split.
+  unfold Model.opdef_verify, op_pairs. split.
   - intros H.
     apply bind_ok in H. destruct H as (c1 & H1 & H).
     apply bind_ok in H. destruct H as (c2 & H2 & H).
@@ -451,7 +527,7 @@ Proof.
     apply (arg_list_iff _ _ _ _ _ _ _ X2 D2 N2) in H2. destruct H2 as (s2 & S2 & P2).
     assert (H3'' : (do _ <- verify_variadic_size (d_regopt A d) (map (rkind A) (d_regions A d))
                               (len (o_regions A o)) (o_regseg A o);
-                    verify_regions_loop A A_eqb (x_regions x) (d_regions A d) (o_regseg A o)
+                    verify_regions_loop (x_regions x) (d_regions A d) (o_regseg A o)
                               (o_regions A o) c2) = Ok c3).
     { rewrite H3. exact H3'. }
     apply (regions_iff _ _ _ _ _ _ _ X3 D3 N3) in H3''. destruct H3'' as (s3 & S3 & G3 & P3).
@@ -470,7 +546,7 @@ Proof.
     apply bind_ok. exists c2. split; [apply (arg_list_iff _ _ _ _ _ _ _ X2 D2 N2); eauto|].
     assert (H3 : (do _ <- verify_variadic_size (d_regopt A d) (map (rkind A) (d_regions A d))
                               (len (o_regions A o)) (o_regseg A o);
-                    verify_regions_loop A A_eqb (x_regions x) (d_regions A d) (o_regseg A o)
+                    verify_regions_loop (x_regions x) (d_regions A d) (o_regseg A o)
                               (o_regions A o) c2) = Ok c3).
     { apply (regions_iff _ _ _ _ _ _ _ X3 D3 N3). eauto. }
     apply bind_ok in H3. destruct H3 as ([] & H3 & H3').
@@ -484,7 +560,7 @@ Qed.
 (* OpDef.verify accepts exactly the valid operations *)
 Theorem opdef_verify_iff : forall d x o,
   get_accessors A ver d = Ok x -> op_disciplined d o -> def_nonvacuous d -> def_consistent d ->
-  (opdef_verify A A_eqb ver d x o = Ok tt <-> op_valid d o).
+  (opdef_verify d x o = Ok tt <-> op_valid d o).
 Proof.
   intros d x o Hx Hd Hn [base Hc]. rewrite (opdef_verify_threaded _ _ _ Hx Hd Hn). unfold op_valid.
   split; intros (s1 & s2 & s3 & s4 & S1 & S2 & S3 & S4 & G3 & G5 & Ex & G6 & P);
@@ -536,7 +612,7 @@ Theorem built_op_verifies : forall d x b o,
     = expected (map (rkind A) (d_regions A d)) (map norm (b_regions A b)) /\
   run (x_succs x) (o_sucseg A o) (o_succs A o) = expected (d_succs A d) (map norm (b_succs A b)) /\
   (* and verification reduces to the constraints on those arguments *)
-  (opdef_verify A A_eqb ver d x o = Ok tt <->
+  (opdef_verify d x o = Ok tt <->
    single_ok (d_regions A d) (map norm (b_regions A b)) /\
    present_ok (d_props A d) (b_props A b) /\ b_extra_prop A b = false /\
    present_ok (d_attrs A d) (b_attrs A b) /\
@@ -589,22 +665,26 @@ Qed.
 End Whole.
 
 (* ================================================================ a concrete definition (non-vacuity) *)
+(* value universe Z with Model.zof_int / zas_int: type ids < 1000; 1000 + k = IntAttr(k); 2000 + k = int k *)
 Definition ex_c (allowed : list Z) (v : option nat) : constr Z :=
   {| cpred := fun a => existsb (Z.eqb a) allowed; cvar := v |}.
-(* operands: variadic V0 in {1,2} + single V0 in {1,2}, attr-sized; optional result V0;
-   two same-size variadic successors; one required property equal to 7 *)
+Definition ex_any (v : option nat) : constr Z := {| cpred := fun _ => true; cvar := v |}.
+(* operands: variadic V0 in {1,2} of length N (int variable, key 1) + single V0 in {1,2}, attr-sized;
+   optional result V0; two same-size variadic successors; one required IntAttr property equal to N *)
 Definition ex_def : opdef Z :=
-  {| d_operands := [ {| akind := Variadic; aconstr := ex_c [1; 2] (Some 0%nat) |};
-                     {| akind := Single; aconstr := ex_c [1; 2] (Some 0%nat) |} ];
+  {| d_operands := [ {| akind := Variadic; aconstr := ex_c [1; 2] (Some 0%nat);
+                        alen := Some (ex_any (Some 1%nat)) |};
+                     {| akind := Single; aconstr := ex_c [1; 2] (Some 0%nat); alen := None |} ];
      d_opopt := AttrSized;
-     d_results := [ {| akind := Optional; aconstr := ex_c [1; 2] (Some 0%nat) |} ];
+     d_results := [ {| akind := Optional; aconstr := ex_c [1; 2] (Some 0%nat); alen := None |} ];
      d_resopt := NoOption;
      d_regions := []; d_regopt := NoOption; d_succs := [Variadic; Variadic]; d_sucopt := SameSize;
-     d_props := [(false, ex_c [7] None)]; d_attrs := [] |}.
-Definition ex_op (seg : list Z) (res : list Z) : opinst Z :=
+     d_props := [(false, NIntAttr Z (ex_any (Some 1%nat)))]; d_attrs := [] |}.
+Definition ex_op_p (seg : list Z) (res : list Z) (p : Z) : opinst Z :=
   {| o_operands := [2; 2; 2]; o_opseg := Dense true seg; o_results := res; o_resseg := Missing;
      o_regions := []; o_regseg := Missing; o_succs := [0; 0; 0; 0]; o_sucseg := Missing;
-     o_props := [Some 7]; o_extra_prop := false; o_attrs := [] |}.
+     o_props := [Some p]; o_extra_prop := false; o_attrs := [] |}.
+Definition ex_op (seg : list Z) (res : list Z) : opinst Z := ex_op_p seg res 1002.   (* IntAttr(2) *)
 
 Lemma ex_hypotheses : forall ver,
   op_disciplined Z ver ex_def (ex_op [2; 1] [2]) /\ def_nonvacuous Z ver ex_def /\
@@ -615,10 +695,23 @@ Proof.
     split; [|split; [|split]]; intros E _ vs Ev; try discriminate E.
     injection Ev as <-. split; [repeat constructor; lia|reflexivity].
   - unfold def_nonvacuous, same_nonvacuous. split; [|split]; intros E; discriminate E.
-  - exists (fun _ a => existsb (Z.eqb a) [1; 2]). intros c Hin v Hv a. cbn in Hin.
-    destruct Hin as [<-|[<-|[<-|[<-|[]]]]]; cbn in *; try discriminate; reflexivity.
+  - exists (fun v a => if Nat.eqb v 0 then existsb (Z.eqb a) [1; 2] else true).
+    intros c Hin v Hv a. cbn in Hin.
+    destruct Hin as [<-|[<-|[<-|[<-|[<-|[]]]]]]; cbn in *; injection Hv as <-; reflexivity.
   - intros _ _. reflexivity.
 Qed.
+
+(* three attr-sized variadic operand segments sharing one length variable N (the omp.* pattern
+   `var_operand_def(RangeOf(AnyAttr()).of_length(IntVarConstraint("N", AnyInt())))`) *)
+Definition ex_len_def : opdef Z :=
+  let seg := {| akind := Variadic; aconstr := ex_any None; alen := Some (ex_any (Some 1%nat)) |} in
+  {| d_operands := [seg; seg; seg]; d_opopt := AttrSized;
+     d_results := []; d_resopt := NoOption; d_regions := []; d_regopt := NoOption;
+     d_succs := []; d_sucopt := NoOption; d_props := []; d_attrs := [] |}.
+Definition ex_len_op (sizes : list Z) : opinst Z :=
+  {| o_operands := map (fun _ => 1) (seq 0 (Z.to_nat (zsum sizes))); o_opseg := Dense true sizes;
+     o_results := []; o_resseg := Missing; o_regions := []; o_regseg := Missing;
+     o_succs := []; o_sucseg := Missing; o_props := []; o_extra_prop := false; o_attrs := [] |}.
 
 (* ================================================================ the repaired code: full statements *)
 Definition v_pinned : version := {| fix_attr_sum := false; fix_same_novar := false |}.
@@ -628,11 +721,11 @@ Definition v_repaired : version := {| fix_attr_sum := true; fix_same_novar := tr
    remaining hypothesis is that a constraint variable is always used with one base constraint *)
 Theorem opdef_verify_iff_repaired :
   forall A A_eqb, (forall a b : A, A_eqb a b = true <-> a = b) ->
-  forall d x o,
+  forall of_int as_int d x o,
   get_accessors A v_repaired d = Ok x -> def_consistent A d ->
-  (opdef_verify A A_eqb v_repaired d x o = Ok tt <-> op_valid A d o).
+  (opdef_verify A A_eqb v_repaired of_int as_int d x o = Ok tt <-> op_valid A of_int as_int d o).
 Proof.
-  intros A A_eqb Hspec d x o Hx Hc. apply opdef_verify_iff; auto.
+  intros A A_eqb Hspec of_int as_int d x o Hx Hc. apply opdef_verify_iff; auto.
   - unfold op_disciplined, attr_disciplined. split; [|split; [|split]]; intros _ E; discriminate E.
   - unfold def_nonvacuous, same_nonvacuous. split; [|split]; intros _ E; discriminate E.
 Qed.
